@@ -33,14 +33,8 @@ import (
 	"verifkit"
 )
 
-func vC16FreeAddr() string {
-	l, err := net.Listen("tcp", "127.0.0.1:0")
-	if err != nil {
-		panic(err)
-	}
-	defer l.Close()
-	return l.Addr().String()
-}
+// vC16FreeAddr: a loopback address no other listener of this process has been given (verifkit.FreeAddr).
+func vC16FreeAddr() string { return verifkit.FreeAddr() }
 
 func vC16ExecInconclusive(msg string) {
 	fmt.Println("VERIF-INCONCLUSIVE " + msg)
